@@ -75,6 +75,13 @@ for _f in sorted(_glob.glob(os.path.join(os.path.dirname(os.path.abspath(__file_
         if _x not in OBLIG:
             OBLIG.append(_x)
 
+# structural obligations of the coordinator (Obligations/BackendStructure.lean): attached to a property once it is claimed
+for _p in list(THEOREMS):
+    if THEOREMS[_p]:
+        THEOREMS[_p] += ["Obligations.structure_%s" % _p, "Obligations.backend_extraction_complete"]
+if any(THEOREMS.values()) and "QuillModel.Obligations.BackendStructure" not in OBLIG:
+    OBLIG.append("QuillModel.Obligations.BackendStructure")
+
 # a property is claimed in MANIFEST.json only once its theorem file exists
 _ALL_MANIFEST = MANIFEST
 MANIFEST = {p: d for p, d in _ALL_MANIFEST.items() if THEOREMS.get(p)}
